@@ -346,14 +346,18 @@ func (e *Exec) requireOrPanic(st *State, cond *term.Term, msg string) {
 	if st.isInit {
 		panic(&execPanic{kind: "internal", msg: "symbolic check in init"})
 	}
+	e.needVerified(st)
+	if v, known := st.pcKnown(cond, e.ts.Not(cond)); known && v {
+		return
+	}
 	key := feasKey{st.pc, cond.ID}
 	res, ok := e.feasCache[key]
 	var model *term.Model
 	if !ok {
-		res, model = e.check(st, e.ts.Not(cond))
+		res, model = e.checkW(st, "implicit", e.ts.Not(cond))
 		e.feasCache[key] = res
 	} else if res == smt.Sat {
-		res, model = e.check(st, e.ts.Not(cond))
+		res, model = e.checkW(st, "implicit", e.ts.Not(cond))
 	}
 	switch res {
 	case smt.Unsat:
@@ -371,7 +375,7 @@ func (e *Exec) requireOrPanic(st *State, cond *term.Term, msg string) {
 	// the current state continues with cond; it needs a witness satisfying cond
 	st.addPC(cond)
 	if e.ts.Eval(cond, st.witness) == 0 {
-		r2, m2 := e.check(st, e.ts.True)
+		r2, m2 := e.checkW(st, "implicit-cont", e.ts.True)
 		if r2 == smt.Sat {
 			st.witness = m2
 		} else if r2 == smt.Unsat {
